@@ -63,7 +63,7 @@ Definition qs_pairs (qs : str) : list str :=
   filter nonempty (flat_map (split_c 59) (split_c 38 qs)).
 
 Section Parse.
-  (* bytes.decode(encoding): None = UnicodeDecodeError *)
+  (* bytes.decode(encoding), always errors='strict': None = UnicodeDecodeError *)
   Variable decode : list N -> option str.
 
   (* nv = name_value.split(b"=", 1); missing value -> "" ; decode name, then value *)
@@ -210,6 +210,11 @@ End Transcode.
 (* bytes.decode('latin-1') never fails (bytes are octets; anything else is not a bytes object) *)
 Definition latin1_decode (b : list N) : option str := if forallb is_octet b then Some b else None.
 
+(* bytes.decode('ascii').  Transcoder(charset, errors).transcode_query calls parse_qsl_text(q, charset), which
+   decodes strictly whatever `errors` is: the handler does not reach the query / urlencoded path, and the model
+   says so by having no such parameter *)
+Definition ascii_decode_strict (b : list N) : option str := if forallb (fun c => c <? 128) b then Some b else None.
+
 (* ---------------------------------------------------------------- val renderings for the correspondence *)
 Definition v_unquote (s : str) : val := VStr (unquote s).
 Definition v_res_items (r : res items) : val := match r with Ok l => vitems l | e => res_err e end.
@@ -218,6 +223,7 @@ Definition v_parse_latin1 (qs : str) : val := v_res_items (parse_qsl_text latin1
 Definition v_on_change (l : items) : val := VStr (on_change l).
 Definition v_res_str (r : res str) : val := match r with Ok s => VStr s | e => res_err e end.
 Definition v_transcode_latin1 (q : str) : val := v_res_str (transcode_query latin1_decode q).
+Definition v_transcode_ascii (q : str) : val := v_res_str (transcode_query ascii_decode_strict q).
 Definition v_utf8_decode (b : list N) : val :=
   match utf8_decode b with Some s => VStr s | None => VErr E_UnicodeDecodeError end.
 Definition v_utf8_encode (s : str) : val := VStr (utf8_encode s).
